@@ -62,6 +62,29 @@ pub fn run(path: &str) -> i32 {
                 trace_bytes::<ScancodeSet2>(&bytes, via)
             }
         }
+        "byte-seqs" => {
+            // several sequences fed one after the other to ONE decoder (C19's with-history cases) and each to a fresh one
+            let set = rp.get("set").and_then(|s| s.as_i64()).unwrap_or(2);
+            let seqs: Vec<Vec<u8>> = rp.get("seqs").and_then(|a| a.as_arr()).map(|a| a.iter().map(|x| bytes_of(Some(x))).collect()).unwrap_or_default();
+            fn go<D: Dec>(seqs: &[Vec<u8>]) -> String {
+                let mut shared = D::fresh();
+                let mut outs = Vec::new();
+                for s in seqs {
+                    let mut fresh = D::fresh();
+                    let (mut a, mut b) = (String::new(), String::new());
+                    for x in s {
+                        a = guarded(|| res_str(&shared.advance_state(*x))).unwrap_or_else(|_| "PANIC".into());
+                        b = guarded(|| res_str(&fresh.advance_state(*x))).unwrap_or_else(|_| "PANIC".into());
+                    }
+                    println!("  [{}] on the shared decoder → {}   (on a fresh decoder → {})", hex_bytes(s), a, b);
+                    outs.push(a);
+                }
+                outs.join(" / ")
+            }
+            let o = if set == 1 { go::<ScancodeSet1>(&seqs) } else { go::<ScancodeSet2>(&seqs) };
+            println!("now observed: {}\nrecorded: expected {} / observed {}", o, expected, observed);
+            return 2; // verdict is left to the signature search of ./check
+        }
         "words" => {
             let mut last = String::new();
             for w in rp.get("words").and_then(|a| a.as_arr()).cloned().unwrap_or_default() {
